@@ -134,6 +134,28 @@ void VMMon::scan_contexts(runtime& r)
     }
 }
 
+void VMMon::track_contexts(runtime& r)
+{
+    scan_contexts(r);
+    if (ctx_term_seen.size() < ctx_ids.size()) { ctx_term_seen.resize(ctx_ids.size(), 0); ctx_gone.resize(ctx_ids.size(), 0); ctx_finished.resize(ctx_ids.size(), 0); }
+    for (size_t id = 0; id < ctx_ids.size(); id++)
+    {
+        if (ctx_gone[id]) continue;
+        auto sp = ctx_ids[id].lock();
+        bool in_list = false;
+        if (sp)
+        {
+            for (auto it = r.context_begin(); it != r.context_end(); ++it) { if (it->get() == sp.get()) { in_list = true; break; } }
+        }
+        if (in_list) { ctx_term_seen[id] = sp->terminate() ? 1 : 0; }
+        else
+        {
+            ctx_gone[id] = 1;
+            if (!ctx_finished[id] && slice_log.size() > 0) drops.push_back({ (int)id, ctx_term_seen[id] != 0, next_seq() });
+        }
+    }
+}
+
 int VMMon::ctx_id(runtime& r, context& c)
 {
     scan_contexts(r);
@@ -254,6 +276,7 @@ static void h_exec_enter(runtime& r, size_t& budget)
     if (m->budget_override && budget > 1) budget = m->budget_override;
     if (m->mon_slices)
     {
+        m->track_contexts(r);
         VMMon::Slice s{};
         auto& c = r.context_active();
         s.ctx = m->ctx_id(r, c);
@@ -280,7 +303,12 @@ static void h_exec_leave(runtime& r, int res)
         s.t1 = vclock::now_ns();
         s.n = m->instr.load() - m->cur_slice_start_instr;
         s.res = res;
-        m->scan_contexts(r);
+        if (res == (int)runtime::result::empty && s.ctx >= 0)
+        {
+            if (m->ctx_finished.size() <= (size_t)s.ctx) { m->ctx_finished.resize((size_t)s.ctx + 1, 0); }
+            m->ctx_finished[(size_t)s.ctx] = 1;
+        }
+        m->track_contexts(r);
         s.known1 = (int)m->ctx_ids.size();
         s.seq1 = next_seq();
         if (sp)
@@ -430,6 +458,7 @@ void VMMon::reset_run()
 {
     trace.clear();
     slice_log.clear();
+    drops.clear();
 }
 
 vj::value VMMon::report(bool with_logs)
@@ -464,6 +493,12 @@ vj::value VMMon::report(bool with_logs)
             a.push(e);
         }
         o.set("slice_log", a);
+    }
+    if (with_logs && mon_slices)
+    {
+        auto a = vj::value::arr();
+        for (auto& d : drops) { auto e = vj::value::arr(); e.push(d.ctx).push(d.term).push(d.seq); a.push(e); }
+        o.set("drops", a);
     }
     if (with_logs && trace_max)
     {
